@@ -1476,3 +1476,60 @@ _CLONE_TXT = (' Clone / Default (track apileft; harness/src/fam_stream_clone.rs)
     'real code that a clone IS such a value; spliced into ~30% of the random cases in front of the bulk call.')
 SPECS["C06"]["level_text"] += _CLONE_TXT
 SPECS["C08"]["level_text"] += _CLONE_TXT
+# ---- track apileft, helper decw: decoder prefix clause on the structural iovec, `Read` drains in the call vocabulary (audit gaps 8/15
+# leftovers), the structural decoder after an error (gap 19 leftovers)
+SPECS["C09"]["lean_modules"] += ["Woodpile.Props.C09D"]
+SPECS["C09"]["theorems"] += [
+    "Woodpile.Props.C09D.dec_lag_zero_between_calls",
+    "Woodpile.Props.C09D.dec_drained_stable_prefix",
+    "Woodpile.Props.C09D.dec_drained_complete",
+    "Woodpile.Props.C09D.dec_run_extends",
+    "Woodpile.Props.C09D.run_extends_r",
+    "Woodpile.Props.C09D.enc_world_output_r",
+    "Woodpile.Props.C09D.enc_drained_stable_prefix_r",
+    "Woodpile.Props.C09D.enc_drained_complete_r",
+    "Woodpile.Props.C09D.enc_lag_struct_r",
+    "Woodpile.Props.C09D.enc_slices_in_cap_r",
+    "Woodpile.Props.C09D.enc_lag_le_r",
+    "Woodpile.Props.C09D.enc_lag_le_prod_r",
+]
+SPECS["C09"]["level_text"] += (' Props/C09D (track apileft): the DECODER half of the prefix clause on the structural iovec, stated on a between-calls '
+    'function (EncWorld.decSessB: Decoder::new, any calls, continuing after a call returned Err; state = world, decoder state, drained bytes, errors so far): '
+    'at every call boundary nothing is pending and stable_prefix() (first n slices, n = Iov.stableCount) is everything buffered (dec_lag_zero_between_calls), '
+    'drained ++ stable is a prefix of what the decoder has output at any later point whatever calls follow, and of the decoded data whenever the whole wire '
+    'input decodes (dec_drained_stable_prefix); dec_drained_complete: the input decodes to d iff no call failed, finish accepts and drained ++ flatten = d; '
+    'dec_run_extends: the older whole-run function decRunA (stops at the first error) is this object read up to its first error. The call vocabulary '
+    'EncWorld.BCall adds `rd k` = consumer().read(&mut buf[..k]) (impl Read for ConsumingIovec = World.readInto, op word drain_read of family codecw) to '
+    'ACall; the `_r` theorems restate enc_world_output, enc_drained_stable_prefix, enc_drained_complete, enc_lag_struct, enc_slices_in_cap, enc_lag_le and '
+    'enc_lag_le_prod of Props/C01G / C09H over it (run_extends_r: the old vocabulary embedded).')
+SPECS["C07"]["lean_modules"] += ["Woodpile.Props.C07W"]
+SPECS["C07"]["theorems"] += [
+    "Woodpile.Props.C07W.dec_world_session_never_panics",
+    "Woodpile.Props.C07W.dec_world_session_append",
+    "Woodpile.Props.C07W.dec_world_after_error_is_fresh",
+    "Woodpile.Props.C07W.dec_world_finish_after_error",
+    "Woodpile.Props.C07W.dec_world_session",
+    "Woodpile.Props.C07W.dec_world_resync",
+]
+# the structural decoder object is tied to /repo by family codecw (decoder sessions: messages separated by errors, all input methods and drains);
+# compared here at the level C07 needs: bytes, sizes, verdicts
+SPECS["C07"]["families"] = SPECS["C07"]["families"] + [dict(_CODECW_FAM, obs_prefixes=["A", "R"])]
+SPECS["C07"]["level_text"] += (' Props/C07W (track apileft): the STRUCTURAL decoder (Model/EncWorld on the structural iovec model; what family codecw runs '
+    'against the real Decoder) after an error. Decoder::decode leaves InitialState over the same iovec on Err (EncWorld.decResume; decode_anchored pushes its '
+    'anchor whatever the verdict); model driver and harness now continue after `R err`. For the full call vocabulary (borrow / copy / decode_read with any '
+    'scripted reader; consume, advance_slices, Read drains) the run never panics and agrees with the pipe-level object Dec.calls of Props/C07P '
+    '(dec_world_session_never_panics: same states, same errors, bytes = the emits of all calls, failed ones included; IovInv, nothing pending at every call '
+    'boundary); after a call returned Err the state is InitialState, the iovec holds exactly what was emitted up to the rejected byte, and the rest of the run '
+    'IS the run of a fresh decoder on that world (dec_world_after_error_is_fresh); finish right after an error reports CutShort '
+    '(dec_world_finish_after_error); from any point where the decoder is in InitialState, the following calls decode a complete message d iff none fails, '
+    'finish accepts and the output is what the iovec held followed by d (dec_world_session), in particular a valid encoding fed after an error decodes to '
+    'its payload appended after the pre-error bytes (dec_world_resync = the harness oracle of the decoder-session cases of family codecw).')
+SPECS["C05"]["lean_modules"] += ["Woodpile.Props.C05D"]
+SPECS["C05"]["theorems"] += [
+    "Woodpile.Props.C05D.dec_session_arenaInv",
+    "Woodpile.Props.C05D.dec_session_is_wrun",
+    "Woodpile.Props.C05D.dec_session_exposed_live",
+]
+SPECS["C05"]["level_text"] += (' Props/C05D (track apileft): WorldInv / ArenaInv / exposed_live at every call boundary of a decoder SESSION - across calls '
+    'that returned Err (the decoder lives on, Props/C07W) and across drains through impl Read for ConsumingIovec - for borrowed / copied input (the guard half '
+    'along anchored calls stays unproved, as in C05H); the session world is a WOp history (dec_session_is_wrun).')
